@@ -92,7 +92,7 @@ Proof. vm_compute. auto. Qed.
 Lemma kr_lied_ZOK : ZOK z0 kr_lied.
 Proof.
   destruct (new_board z0 [] kr_pos White 0 1) as [h b] eqn:E.
-  pose proof (Game_ZOK _ _ _ _ (proj1 (Game_new z0 kr_pos White 0 1 h b kr_pos_wf (or_introl eq_refl) E))) as [Hwf HI].
+  pose proof (Game_ZOK _ _ _ _ (proj1 (Game_new z0 kr_pos White 0 1 h b kr_pos_wf (or_introl eq_refl) ltac:(vm_compute; discriminate) E))) as [Hwf HI].
   unfold kr_lied, kr_board. rewrite E. cbn [fst snd] in *. split; [apply wf_adjudicate; exact Hwf|exact HI].
 Qed.
 
